@@ -304,6 +304,11 @@ def _status_value(s):
     return s
 
 
+async def _achunks(chunks):
+    for c in chunks:
+        yield c
+
+
 def apply_response(resp, rd):
     """Shared by the sync and the async rendering: Response's mutators are synchronous on both."""
     if rd['status'] is not None:
@@ -335,6 +340,12 @@ def apply_response(resp, rd):
         resp.data = value
     elif kind == 'media':
         resp.media = value
+    elif kind == 'stream':
+        # a streamed body: a plain iterable on WSGI, its async twin on ASGI (same chunks)
+        if isinstance(resp, falcon.asgi.Response):
+            resp.stream = _achunks([bytes(c) for c in value])
+        else:
+            resp.stream = iter([bytes(c) for c in value])
     elif kind == 'multi':
         # several body sources at once (incl. empty text / data): both stacks must pick the same one
         for k2, v2 in value:
@@ -534,6 +545,35 @@ def via_asgi_driver(app, holder, case):
 
 class ClientInconclusive(Exception):
     pass
+
+
+def client_kwargs(case, stack, headers=None):
+    """The documented simulate_request arguments for a logical request (headers: override of the header list)."""
+    headers = [(n, v) for n, v in (case['headers'] if headers is None else headers)]
+    body = case['body']
+    if body:
+        headers = [(n, v) for n, v in headers if n.lower() != 'content-length']
+    client = case['client']
+    kwargs = dict(
+        method=case['method'], path=case['raw_path'], query_string=case['query'], headers=headers,
+        body=body if body else None, protocol=case['scheme'], host=case['server'][0], port=case['server'][1],
+        remote_addr=client[0] if isinstance(client, list) else None, http_version=case['http_version'],
+        root_path=case['root_path'] if case['root_path'] else None,
+    )
+    if stack == 'asgi':
+        kwargs['asgi_chunk_size'] = max(1, (case['chunks'] or [4096])[0])
+    else:
+        kwargs['wsgierrors'] = io.StringIO()
+    return kwargs
+
+
+def obs_of_result(result, holder):
+    if holder.harness is not None:
+        raise HarnessError('client: responder harness raised %r' % (holder.harness,))
+    hdrs = [(k.lower(), v) for k, v in result.headers.items()]
+    obs = Obs(result.status_code, hdrs, result.content, holder.digests, holder.api_exc)
+    obs.cookie_names = sorted(result.cookies)
+    return obs
 
 
 def via_client(app, holder, case, stack):
@@ -1026,6 +1066,7 @@ _resp_body = st.one_of(
     st.tuples(st.just('text'), st.text(alphabet=st.sampled_from(list('abc \né€\U0001f600{}"')), max_size=20)).map(list),
     st.tuples(st.just('data'), st.binary(max_size=30)).map(list),
     st.tuples(st.just('media'), _resp_media).map(list),
+    st.tuples(st.just('stream'), st.lists(st.sampled_from([b'chunk-1;', b'x', b'', b'\xff\x00']), max_size=3)).map(list),
     st.tuples(st.just('multi'), st.lists(st.one_of(
         st.tuples(st.just('text'), st.sampled_from(['', '', 'txt', 'é'])).map(list),
         st.tuples(st.just('data'), st.sampled_from([b'', b'', b'dat'])).map(list),
@@ -1290,5 +1331,99 @@ class ClientPair(Suite):
         return Info(True, ['repeated_singleton_header'])
 
 
-SUITES = [WsgiAsgi(), Client(), ClientPair()]
+class ClientSession(Suite):
+    """Persistent test clients: falcon.testing.TestClient(app, headers=defaults) on the WSGI and on the ASGI app and
+    falcon.testing.ASGIConductor(app, headers=defaults) inside `async with`, each used for 2-4 requests that carry their
+    own additional headers (some overriding a default of the same name).  Request i through every client must equal the
+    minimal driver run of the logical request "defaults updated with request i's headers" - in particular nothing of
+    request i-1 may show in request i and the defaults stay what they were."""
+
+    name = 'client_session'
+    budget = {'quick': 500, 'thorough': 8000}
+
+    def strategy(self, tier):
+        names = ['X-Sess-A', 'X-Sess-B', 'X-Tenant', 'Accept-Language', 'X-Trace']
+        values = st.sampled_from(['1', 'two', 'v3', 'fr-CH', 'abc def'])
+        hset = st.dictionaries(st.sampled_from(names), values, max_size=3).map(lambda d: [[k, v] for k, v in sorted(d.items())])
+
+        def build(base, defaults, per):
+            seen, uniq = set(), []
+            for n, v in base['headers']:
+                if n.lower() not in seen and n.lower() not in ('cookie',):
+                    seen.add(n.lower())
+                    uniq.append([n, v])
+            return {'base': dict(base, headers=uniq), 'defaults': defaults, 'per_request': per}
+        return st.builds(build, _requests(True), hset.filter(bool), st.lists(hset, min_size=2, max_size=4))
+
+    def run(self, case):
+        base = case['base']
+        wapp, wh, aapp, ah = apps_for(base)
+        defaults = {k: v for k, v in case['defaults']}
+        logical = []
+        for extra in case['per_request']:
+            merged = dict(defaults)
+            own = [[n, v] for n, v in base['headers'] if n not in dict(extra)] + [list(x) for x in extra]
+            merged.update({n: v for n, v in own})
+            logical.append((dict(base, headers=[[k, v] for k, v in merged.items()]), own))
+        drv_w, drv_a = [], []
+        for lc, _own in logical:
+            wh.reset(lc)
+            drv_w.append(via_wsgi_driver(wapp, wh, lc))
+            ah.reset(lc)
+            drv_a.append(via_asgi_driver(aapp, ah, lc))
+        labels = ['requests:%d' % len(logical)]
+        emitter = getattr(_fth, 'ASGIRequestEventEmitter', None)
+        decider = getattr(emitter, '_branch_decider', None)
+
+        def reset_decider():
+            if decider is not None:
+                decider.clear()
+
+        with warnings.catch_warnings():
+            warnings.simplefilter('ignore')
+            # ---- TestClient on both stacks
+            for stack, app, holder, drv in (('wsgi', wapp, wh, drv_w), ('asgi', aapp, ah, drv_a)):
+                client = falcon.testing.TestClient(app, headers=dict(defaults))
+                try:
+                    for i, (lc, own) in enumerate(logical):
+                        holder.reset(lc)
+                        reset_decider()
+                        kw = client_kwargs(lc, stack, headers=own)
+                        try:
+                            result = client.simulate_request(**kw)
+                        except AssertionError as e:
+                            tb = e.__traceback__
+                            while tb.tb_next is not None:
+                                tb = tb.tb_next
+                            if 'wsgiref' in tb.tb_frame.f_code.co_filename:
+                                raise ClientInconclusive(str(e)[:80])
+                            raise
+                        compare_with_client('%s TestClient request #%d of %d (defaults %r)' % (stack, i + 1, len(logical), defaults),
+                                            drv[i], obs_of_result(result, holder), lc)
+                    labels.append('testclient:%s_compared' % stack)
+                except ClientInconclusive:
+                    labels.append('client:wsgiref_validate_assertion(inconclusive)')
+
+            # ---- ASGIConductor
+            async def session():
+                out = []
+                async with falcon.testing.ASGIConductor(aapp, headers=dict(defaults)) as conductor:
+                    for lc, own in logical:
+                        ah.reset(lc)
+                        reset_decider()
+                        kw = client_kwargs(lc, 'asgi', headers=own)
+                        result = await conductor.simulate_request(**kw)
+                        out.append(obs_of_result(result, ah))
+                return out
+            got = A.run(session())
+            for i, (lc, _own) in enumerate(logical):
+                compare_with_client('ASGIConductor request #%d of %d (defaults %r)' % (i + 1, len(logical), defaults), drv_a[i], got[i], lc)
+            labels.append('conductor_compared')
+        overrides = any(n in defaults for _lc, own in logical for n, _v in own)
+        if overrides:
+            labels.append('request_overrides_a_default')
+        return Info(True, labels)
+
+
+SUITES = [WsgiAsgi(), Client(), ClientPair(), ClientSession()]
 KNOWN = {}
